@@ -49,7 +49,7 @@ class PythonPrinter:
 
         self._re_space_comment = re.compile(r"^\s*#")
         self._re_space = re.compile(r"^\s*$")
-        self._re_indent = re.compile(r":[ \t]*(?:#.*)?$")
+        self._re_indent = re.compile(r":\s*(?:#.*)?$", re.S)
         self._re_compound = re.compile(
             r"^\s*(if|try|elif|while|for|with|except)"
         )
